@@ -16,7 +16,11 @@ def _mask2d(h, w, u, rng=None):
     m = np.ones(h * w, dtype=bool)
     m[u] = False
     m = m.reshape(h, w)
-    return aa.Mask2D(mask=m, pixel_scales=(1.0, 1.0)), m
+    # the boolean array handed over is, for two thirds of the instances, not C-contiguous (Fortran order / a transposed view):
+    # the meaning of a mask is its entries, not its memory layout
+    k = (len(u) + 2 * h + w) % 3
+    given = m if k == 0 else (np.asfortranarray(m) if k == 1 else np.ascontiguousarray(m.T).T)
+    return aa.Mask2D(mask=given, pixel_scales=(1.0, 1.0)), m
 
 
 def _src2(out, ncomp, ncells):
